@@ -166,6 +166,7 @@ pub fn nc_values() -> Vec<(String, NcSpec)> {
 
 pub fn custom_ext_values() -> Vec<(String, Vec<CustomExtSpec>)> {
     let a = CustomExtSpec { oid: vec![1, 2, 3, 4], critical: false, content: vec![0x04, 0x03, 0x01, 0x02, 0x03], acme: false };
+    let a2 = a.clone();
     let b = CustomExtSpec { oid: vec![2, 999, 7], critical: true, content: vec![0x30, 0x03, 0x02, 0x01, 0x05], acme: false };
     let mut acme_content = vec![0x04, 0x20];
     acme_content.extend((0u8..32).map(|i| i.wrapping_mul(7)));
@@ -191,6 +192,7 @@ pub fn custom_ext_values() -> Vec<(String, Vec<CustomExtSpec>)> {
                 CustomExtSpec { content: vec![0x04, 0x01, 0xff], ..a },
             ],
         ),
+        ("nc:the same oid twice in a row, then another".into(), vec![a2.clone(), CustomExtSpec { content: vec![0x04, 0x01, 0xee], critical: true, ..a2.clone() }, CustomExtSpec { oid: vec![1, 2, 3, 5], critical: false, content: vec![0x0c, 0x01, 0x78], acme: false }]),
     ]
 }
 
